@@ -210,7 +210,7 @@ func (r *c11Runner) finish() {
 		o.callLat[c] = g.at.Sub(ref)
 		if g.err == nil {
 			o.calls[c] = 1
-			o.payloadOK[c] = bytes.Equal(g.payload, []byte{byte(c), 0x55, 0x66})
+			o.payloadOK[c] = bytes.Equal(g.payload, c11ReplyPayload(r.sc, c))
 		} else {
 			o.calls[c] = 2
 		}
